@@ -796,7 +796,6 @@ func c15Refusal(p *Prog, fi *FuncInfo, info *types.Info, e ast.Expr, depth int) 
 	return false
 }
 
-
 // c15ErrAction: the expression is the configured error action applied to a result that carries a reason –
 // `X.errAction.Apply(CheckResult{Reason: …})` – or a call of a function of the package every return of which is.
 func c15ErrAction(p *Prog, fi *FuncInfo, info *types.Info, e ast.Expr, depth int) bool {
